@@ -73,6 +73,9 @@ def scan_reference(ctx, repo):
     ctx.call(RRD.r_lookahead_sufficient, repo)
     ctx.call(R6B.r_uri_escapes_joined, repo)
     ctx.call(R6B.r_one_token_per_fetch, repo)
+    ctx.call(R6B.r_required_key_block_only, repo)
+    ctx.call(R6B.r_flow_scalar_first_chunk, repo)
+    ctx.call(R6B.r_checked_classes_unrelated, repo)
     ctx.call(R6B.r_need_more_tokens_pure, repo)
     ctx.call(RD.r_loop_progress, repo)
     ctx.call(R6B.r_block_increment_relative, repo)
